@@ -116,7 +116,25 @@ def monitor(script, c):
             if len(o) > 3 and int(o[3], 16) != v:
                 hits.append({"what": "bitvector_left_shift is not a shift of the bit window", "signature": "bitvector-shift-mismatch",
                              "detail": f"length {ints[0]} shift {ints[1]}"}); break
-        elif t[0] == "icm" and shutil.which("openssl") and len(bts[2]) > 0 and int(o[2], 16) == 0 and bts[1][14:] == b"\0\0" and len(bts[2]) < 1000:
+        if t[0] == "icm" and len(bts) >= 3 and len(bts[0]) in (30, 46):
+            # RFC 3711 4.1.1: at most 2^16 blocks per IV; the implementation refuses a call that would pass block 0xffff
+            ctr0 = int.from_bytes(bts[1][14:16], "big") if len(bts[1]) >= 16 else 0
+            pos, expect_st, data = 0, 0, bts[2]
+            sizes = [min(c, len(data)) for c in ints[1:]]
+            chunks, left = [], len(data)
+            for c in ints[1:]:
+                if left <= 0: break
+                n = min(c, left); chunks.append(n); left -= n
+            if left > 0: chunks.append(left)
+            for n in chunks:
+                if ctr0 + (pos + n + 15) // 16 > 65535:
+                    expect_st = 6; break
+                pos += n
+            got_len = 0 if len(o) < 4 or o[3] == "-" else len(o[3]) // 2
+            if int(o[2], 16) != expect_st or got_len != pos:
+                hits.append({"what": "AES-ICM per-IV block limit: a call that would pass block 0xffff must be refused (terminus) and earlier ones accepted",
+                             "signature": "icm-terminus", "detail": f"counter {ctr0:x} chunks {chunks}: status {o[2]} output {got_len} octets, expected status {expect_st:x} and {pos} octets"}); break
+        if t[0] == "icm" and shutil.which("openssl") and len(bts[2]) > 0 and int(o[2], 16) == 0 and bts[1][14:] == b"\0\0" and len(bts[2]) < 1000:
             key = bts[0]; kl = len(key) - 14
             ctr = bytes(x ^ y for x, y in zip(key[kl:] + b"\0\0", bts[1]))
             try:
